@@ -14,4 +14,5 @@ import J5V.Props.C09
 #print axioms J5V.Props.C09.C09_description_reflow_stable
 #print axioms J5V.Props.C09.C09_src_tokenSource
 #print axioms J5V.Props.C09.C09_src_quoteString
+#print axioms J5V.Props.C09.C09_src_space_class
 #print axioms J5V.Props.C09.C09_src_description
